@@ -92,7 +92,11 @@ class TableEvaluator:
         memoize: bool = False,
         hook: Callable[[int, "TableEvaluator"], None] | None = None,
         batch_ids: bool = False,
+        pooled: bool = False,
     ) -> None:
+        # pooled: the returned arrays are READ-ONLY views of internal buffers that are refilled on every call
+        self.pooled = pooled
+        self._pool: dict[str, np.ndarray] = {}
         self.fn = fn
         self.n_obj = n_obj
         self.n_con = n_con
@@ -105,6 +109,9 @@ class TableEvaluator:
         self.memo: dict[Any, EvaluatorResult] = {}
         self.returned: list[EvaluatorResult] = []
         self.snapshots: list[tuple[bytes | None, bytes | None]] = []
+
+    def _to_pool(self, name: str, array: np.ndarray) -> np.ndarray:
+        return _pool_store(self._pool, name, array)
 
     def __call__(self, variables: NDArray[np.float64], context: EvaluatorContext) -> EvaluatorResult:
         call_index = len(self.calls)
@@ -161,6 +168,10 @@ class TableEvaluator:
                             objectives[row, column] = np.nan
                         elif constraints is not None:
                             constraints[row, column - self.n_obj] = np.nan
+        if self.pooled:
+            objectives = self._to_pool("objectives", objectives)
+            if constraints is not None:
+                constraints = self._to_pool("constraints", constraints)
         result = EvaluatorResult(
             objectives=objectives,
             constraints=constraints,
@@ -173,6 +184,18 @@ class TableEvaluator:
         self.returned.append(result)
         self.snapshots.append((bytes_of(objectives), bytes_of(constraints)))
         return result
+
+
+def _pool_store(pool: dict[str, np.ndarray], name: str, array: np.ndarray) -> np.ndarray:
+    buf = pool.get(name)
+    if buf is None or buf.shape[0] < 64 or buf.shape[1] != array.shape[1]:
+        buf = np.full((64, array.shape[1]), -12345.0)
+        pool[name] = buf
+    buf[:] = -12345.0  # refill: anything handed out earlier is overwritten
+    buf[: array.shape[0]] = array
+    view = buf[: array.shape[0]]
+    view.setflags(write=False)
+    return view
 
 
 class AffineEnsemble:
